@@ -31,6 +31,8 @@ const (
 	HRebuildLast                 // insert p1..pk-1, Build, insert pk, Build
 	HRebuildFirst                // insert p2..pk, Build, insert p1, Build   (k >= 2)
 	HDup                         // insert p1..pk, insert p1 again, Build
+	HQueryBetween                // insert p1..pk-1, Build, run every query on probe texts, insert pk, Build
+	HQueryBetweenFirst           // insert p2..pk, Build, run every query on probe texts, insert p1, Build   (k >= 2)
 )
 
 func (h History) String() string {
@@ -43,12 +45,25 @@ func (h History) String() string {
 		return "insert-all-but-first,build,insert-first,build"
 	case HDup:
 		return "insert-all,insert-first-again,build"
+	case HQueryBetween:
+		return "insert-all-but-last,build,query-probe-texts,insert-last,build"
+	case HQueryBetweenFirst:
+		return "insert-all-but-first,build,query-probe-texts,insert-first,build"
 	}
 	return "?"
 }
 
 // steps returns the sequence of operations: a pattern, or "\x00build".
 const opBuild = "\x00build"
+const opProbe = "\x00probe"
+
+// ProbeTexts are queried between the two builds of history HQueryBetween (results ignored): a
+// trie that memoises anything while answering queries must forget it when patterns are added.
+var ProbeTexts = func() []string {
+	var out []string
+	common.Strings([]string{"a", "b", "c", "é"}, 4, func(s string) { out = append(out, s) })
+	return out
+}()
 
 func (h History) steps(p []string) []string {
 	var s []string
@@ -64,6 +79,12 @@ func (h History) steps(p []string) []string {
 	case HDup:
 		s = append(s, p...)
 		s = append(s, p[0])
+	case HQueryBetween:
+		s = append(s, p[:len(p)-1]...)
+		s = append(s, opBuild, opProbe, p[len(p)-1])
+	case HQueryBetweenFirst:
+		s = append(s, p[1:]...)
+		s = append(s, opBuild, opProbe, p[0])
 	}
 	return append(s, opBuild)
 }
@@ -72,9 +93,23 @@ func (h History) steps(p []string) []string {
 func Build(p []string, h History) *algz.Trie {
 	t := &algz.Trie{}
 	for _, op := range h.steps(p) {
-		if op == opBuild {
+		switch op {
+		case opBuild:
 			t.BuildFailureLinks()
-		} else {
+		case opProbe:
+			for _, q := range ProbeTexts {
+				Try(func() {
+					t.Match(q)
+					t.FindAll(q)
+					t.Replace(q, "#")
+					t.ReplaceWithMask(q, '*')
+					if len(q) <= 2 {
+						t.PrefixSearch(q)
+						t.FuzzySearch(q)
+					}
+				})
+			}
+		default:
 			t.Insert(op)
 		}
 	}
@@ -88,6 +123,8 @@ func GoSetup(p []string, h History) string {
 	for _, op := range h.steps(p) {
 		if op == opBuild {
 			b.WriteString("\ttr.BuildFailureLinks()\n")
+		} else if op == opProbe {
+			b.WriteString("\tfor _, q := range probeTexts { tr.Match(q); tr.FindAll(q); tr.Replace(q, \"#\"); tr.ReplaceWithMask(q, '*') } // every string over {a,b,c,é} of length <= 4\n")
 		} else {
 			fmt.Fprintf(&b, "\ttr.Insert(%q)\n", op)
 		}
@@ -163,7 +200,7 @@ func dedupTexts(in []Text) []Text {
 	return out
 }
 
-var allHist = []History{HAll, HRebuildLast, HRebuildFirst, HDup}
+var allHist = []History{HAll, HRebuildLast, HRebuildFirst, HDup, HQueryBetween, HQueryBetweenFirst}
 
 // Bounds of one tier.
 type Bounds struct {
@@ -789,7 +826,7 @@ func (f *Family) Run(r *common.Run, famIdx int, global *Collector, tot *Totals, 
 				set[k] = f.Pats[pi]
 			}
 			for _, h := range f.Hists {
-				if h == HRebuildFirst && len(set) < 2 {
+				if (h == HRebuildFirst || h == HQueryBetweenFirst) && len(set) < 2 {
 					continue
 				}
 				ins := set
